@@ -15,16 +15,16 @@ REG.fields(
     lb='int', ub='int', final='int', fuel='int',
 )
 REG.uf('size', 'int', 'int')
-# sizes are non-negative: a lemma, not an assumption, for LeafNode, NullNode, KeyValuePairNode, ListNode, XMLElement, PLISTNode and
-# PyObj - one discharged induction step per class in contracts.sizes, the memo in contracts.sizes_memo (targets of C03); still
-# assumed for MultiSetNode / DictNode (Counter arithmetic), FixedKeyDictNode and DataClassNode (checked by the bounded tier of C03)
+# sizes are non-negative: a lemma, not an assumption, for LeafNode, NullNode, KeyValuePairNode, ListNode, FixedKeyDictNode,
+# MultiSetNode/DictNode, XMLElement, PLISTNode and PyObj - one discharged induction step per class in contracts.sizes, sizes_fk,
+# sizes_ms, the memo in contracts.sizes_memo (targets of C03); still assumed for DataClassNode (getattr over slots; bounded tier of C03)
 REG.axiom('forall_ref(x, size(x) >= 0)')
 
 # node size: memoised property (verified with its memo write in contracts.sizes_memo)
 REG.contract('TreeNode.total_size', params={'self': 'ref[TreeNode]'}, returns='int', virtual=True, pure=True,
              ensures=['result == size(self)', 'result >= 0'],
              trusted='TreeNode.total_size: non-negative and immutable after first use - discharged in contracts.sizes / sizes_memo (C03) for every '
-                     'node class except MultiSetNode, DictNode, FixedKeyDictNode, DataClassNode; composed by structural induction (paper step)')
+                     'node class except DataClassNode; composed by structural induction (paper step)')
 
 # interface E(X): x.edits(y) allocates a pair edit covering (x, y) that satisfies the Bounded well-formedness
 REG.contract('TreeNode.edits', params={'self': 'ref[TreeNode]', 'node': 'ref[TreeNode]'}, returns='ref[Edit]',
